@@ -141,8 +141,55 @@ def r2(ctx: Ctx, roles) -> None:
         for mname in ORDER + ["CLOSED"]:
             val = ctx.sym.eval(e, setter.module.name, {p: EnumVal(roles.state_enum, mname, members[mname])}) if e is not None else Unknown
             if val is Unknown:
+                # the value may be prepared in locals (and in branches) before it is stored: run the setter's straight-line
+                # / if-else body on this state
+                val = _run_setter(ctx, setter, {p: EnumVal(roles.state_enum, mname, members[mname])}).get(attr, Unknown)
+            if val is Unknown:
                 raise AnalysisError(f"cannot evaluate {attr} expression {norm(e)} for state {mname}")
             ctx.ob("C05.R2", setter, f"{attr} @ {mname}", bool(val) == (mname in truthy), f"{norm(e)} evaluates to {val!r}, specified {mname in truthy}")
+
+
+def _run_setter(ctx: Ctx, setter: Func, env0: dict) -> dict:
+    """Final values of the `self.<attr>` stores of a setter whose body is assignments and if/else on foldable tests."""
+    env = dict(env0)
+    out: dict = {}
+
+    def run(body) -> bool:
+        for st in body:
+            if isinstance(st, ast.Expr):
+                continue  # logging and the like
+            if isinstance(st, (ast.Assign, ast.AnnAssign)):
+                tgts = st.targets if isinstance(st, ast.Assign) else [st.target]
+                if st.value is None:
+                    continue
+                v = ctx.sym.eval(st.value, setter.module.name, env)
+                for t in tgts:
+                    if isinstance(t, ast.Name):
+                        env[t.id] = v
+                    elif isinstance(t, ast.Attribute) and norm(t.value) == "self":
+                        out[t.attr] = v
+                    else:
+                        return False
+                continue
+            if isinstance(st, ast.If):
+                c = ctx.sym.eval(st.test, setter.module.name, env)
+                if c is Unknown:
+                    # a test the evaluator cannot fold (debug logging, say) must not write what we are after
+                    if any(isinstance(x, (ast.Attribute, ast.Name)) and isinstance(x.ctx, ast.Store) for b in st.body + st.orelse for x in ast.walk(b)):
+                        return False
+                    continue
+                if not run(st.body if c else st.orelse):
+                    return False
+                continue
+            if isinstance(st, ast.Return):
+                return True
+            return False
+        return True
+
+    body = [b for b in setter.node.body if not (isinstance(b, ast.Expr) and isinstance(b.value, ast.Constant))]
+    if not run(body):
+        return {}
+    return out
 
 
 def _node_attr_writes(n: Node):
